@@ -305,6 +305,18 @@ def _table_rows(cb):
         if not (tr.origin and tr.origin[0] == "agg" and tr.origin[1]["rv"].get("agg") == "tuple" and len(tr.origin[1]["rv"]["ops"]) == 2):
             return None
         a, f = tr.origin[1]["rv"]["ops"]
+
+        def _is_fn(o_):
+            if o_.get("k") == "fn":
+                return True
+            if is_place(o_):
+                ds_ = cb.whole_defs(o_["p"]["l"])
+                return len(ds_) == 1 and ds_[0][2] == "assign" and ds_[0][3]["rv"]["k"] == "cast" and ds_[0][3]["rv"]["op"].get("k") == "fn"
+            return False
+
+        swapped = _is_fn(a) and not _is_fn(f)
+        if swapped:
+            a, f = f, a
         ta = trace(cb, a)
         variant = None
         if ta.origin and ta.origin[0] == "agg":
@@ -320,7 +332,7 @@ def _table_rows(cb):
             fdef = f["def"]
         if variant is None or fdef is None:
             return None
-        rows.append((variant, fdef))
+        rows.append((variant, fdef, 1 if swapped else 0))
     return rows
 
 
@@ -384,7 +396,9 @@ def _build_table(lib, ts, ids, cid, cb, rows):
     # rows pair each Format with its own trial
     order = []
     paired = {}
-    for variant, fdef in rows:
+    fmt_index = rows[0][2] if rows else 0  # which tuple field holds the Format (the fn pointer is the other one)
+    fn_index = 1 - fmt_index
+    for variant, fdef, _ in rows:
         fmt = ids.get(fdef)
         if fmt is None:
             ts.problems.append(f"table row ({variant}, {fdef}) is not a detection trial")
@@ -394,6 +408,8 @@ def _build_table(lib, ts, ids, cid, cb, rows):
         order.append(fmt)
         paired[fmt] = variant.lower() == fmt
     ts.order = order
+    if _build_table_find_map(lib, ts, ids, cid, cb, order, paired, fmt_index, fn_index):
+        return
     # the table is walked front to back: into_iter()/iter() on the constant, then Iterator::next on exactly
     # that iterator type (an adaptor such as rev()/skip() would change the receiver type)
     nexts = []
@@ -433,7 +449,7 @@ def _build_table(lib, ts, ids, cid, cb, rows):
     calls = []
     for bb, t in det.calls():
         fo = t.get("func")
-        if fo and fo.get("k") != "fn" and is_place(fo) and from_item(fo, 1):
+        if fo and fo.get("k") != "fn" and is_place(fo) and from_item(fo, fn_index):
             calls.append((bb, t))
     if len(calls) != 1:
         ts.problems.append(f"expected one call through the table's fn pointer, found {len(calls)}")
@@ -448,7 +464,7 @@ def _build_table(lib, ts, ids, cid, cb, rows):
         for s in det.blocks[bi]["stmts"]:
             if s["k"] == "assign" and s["rv"]["k"] == "aggregate" and s["rv"].get("variant") == "Some" and "Option<Format>" in s["p"]["ty"]:
                 sel_site = site(det, bi)
-                if not from_item(s["rv"]["ops"][0], 0):
+                if not from_item(s["rv"]["ops"][0], fmt_index):
                     ts.stray.append(("<not the row's format>", site(det, bi)))
                     continue
                 good = False
@@ -469,6 +485,88 @@ def _build_table(lib, ts, ids, cid, cb, rows):
     for fmt in order:
         ts.entries[fmt] = {"site": site(det, cbb), "fresh": fresh, "rewinds": rew, "acc_site": site(acc) if acc else site(det, cbb),
                            "selected": sel_ok and paired.get(fmt, False), "sel_site": sel_site if paired.get(fmt, False) else site(cb)}
+
+
+def _build_table_find_map(lib, ts, ids, cid, cb, order, paired, fmt_index, fn_index):
+    """The table searched with `TABLE.into_iter().find_map(|(..)| trial(input.borrow_mut()).map(|m| m.then_some(format))
+    .transpose()).transpose()`: find_map visits the rows in order and stops at the first `Some`, which the closure
+    yields for a match (`Some(Ok(format))`) or an I/O error (`Some(Err(e))`). Fills ts.entries and returns True when
+    the driver has this shape; returns False (nothing filled) otherwise."""
+    det = ts.driver
+    fm = [(bb, t) for bb, t in det.calls() if (fn_of(t) or {}).get("trait") == "std::iter::Iterator" and (fn_of(t) or {}).get("name") == "find_map"]
+    if len(fm) != 1:
+        return False
+    fbb, ft = fm[0]
+    st = (fn_of(ft) or {}).get("self_ty", "")
+    src = trace(det, ft["args"][0], passthrough_extra=("std::iter::IntoIterator::into_iter", "::iter"))
+    if not (src.origin and src.origin[0] == "const" and src.origin[1].get("def") == cid):
+        return False
+    if not (st.startswith("std::array::IntoIter<") or st.startswith("std::slice::Iter<")):
+        ts.problems.append(f"the detection table is searched through {st}: the order of trials is not the table order")
+    cls = [lib.by_id.get(c) for c in (fn_of(ft) or {}).get("closures", [])]
+    cls = [c for c in cls if c is not None]
+    if len(cls) != 1:
+        ts.problems.append("find_map over the detection table without a single local closure")
+        return True
+    cl = cls[0]
+
+    def item_field(body, op, idx):
+        tr = trace(body, op)
+        fields = [s_[1] for s_ in tr.steps if s_[0] == "field"]
+        return bool(tr.origin == ("arg", 2) and fields[:1] == [str(idx)] and len(fields) == 1)
+
+    calls = [(bb, t) for bb, t in cl.calls() if t.get("func") and t["func"].get("k") != "fn" and is_place(t["func"]) and item_field(cl, t["func"], fn_index)]
+    if len(calls) != 1:
+        ts.problems.append(f"expected one call through the table's fn pointer in the find_map closure, found {len(calls)}")
+        return True
+    cbb, ct = calls[0]
+    ok, src_bb, acc, rew = _borrow_info(lib, cl, cbb, ct["args"][0])
+    fresh = ok and src_bb is not None  # the closure body runs once per row: a borrow made in it is that row's own
+    # the closure's answer: transpose(map(trial result, |matched| matched.then_some(row format)))
+    sel_ok = False
+    r0 = trace(cl, {"k": "copy", "p": {"l": 0, "pr": []}})
+    if r0.origin and r0.origin[0] == "call" and "::transpose" in (fn_of(r0.origin[2]) or {}).get("def", "") and all(x[0] == "use" for x in r0.steps):
+        m0 = trace(cl, r0.origin[2]["args"][0])
+        if m0.origin and m0.origin[0] == "call" and (fn_of(m0.origin[2]) or {}).get("def") == "std::result::Result::<T, E>::map" and all(x[0] == "use" for x in m0.steps):
+            mt = m0.origin[2]
+            recv = trace(cl, mt["args"][0])
+            inner = [lib.by_id.get(c) for c in (fn_of(mt) or {}).get("closures", [])]
+            inner = [c for c in inner if c is not None]
+            if recv.origin and recv.origin[0] == "call" and recv.origin[2] is ct and all(x[0] == "use" for x in recv.steps) and len(inner) == 1:
+                ib = inner[0]
+                i0 = trace(ib, {"k": "copy", "p": {"l": 0, "pr": []}})
+                if i0.origin and i0.origin[0] == "call" and (fn_of(i0.origin[2]) or {}).get("def", "").endswith("then_some") and len(i0.origin[2]["args"]) == 2:
+                    cond = trace(ib, i0.origin[2]["args"][0])
+                    val = trace(ib, i0.origin[2]["args"][1])
+                    # the captured value is the row's Format: the environment slot was filled from the item's format field
+                    cap_ok = False
+                    if val.origin == ("arg", 1):
+                        for bi_, blk_ in enumerate(cl.blocks):
+                            for s_ in blk_["stmts"]:
+                                if s_["k"] == "assign" and s_["rv"]["k"] == "aggregate" and s_["rv"].get("agg") == "closure":
+                                    cap_ok = cap_ok or any(is_place(o_) and item_field(cl, {"k": "copy", "p": {"l": _ref_target(cl, o_), "pr": []}}, fmt_index) for o_ in s_["rv"]["ops"] if _ref_target(cl, o_) is not None)
+                    sel_ok = bool(cond.origin == ("arg", 2) and all(x[0] == "use" for x in cond.steps) and cap_ok)
+    # the driver hands the search result on: Option<Result<Format>> -> Result<Option<Format>>
+    d0 = trace(det, {"k": "copy", "p": {"l": 0, "pr": []}})
+    hands_on = bool(d0.origin and d0.origin[0] == "call" and "::transpose" in (fn_of(d0.origin[2]) or {}).get("def", "") and trace(det, d0.origin[2]["args"][0]).origin == ("call", fbb, ft))
+    if not hands_on:
+        ts.problems.append("the result of the table search is not handed on as it is")
+    for bi, variant in _format_aggregates(det) + _format_aggregates(cl):
+        ts.stray.append((variant, site(det, bi)))
+    for fmt in order:
+        ts.entries[fmt] = {"site": site(cl, cbb), "fresh": fresh, "rewinds": rew, "acc_site": site(acc) if acc else site(cl, cbb),
+                           "selected": sel_ok and hands_on and paired.get(fmt, False), "sel_site": site(cl, cbb) if paired.get(fmt, False) else site(cb)}
+    return True
+
+
+def _ref_target(body, op):
+    """Local that a `&x` / `&mut x` operand (single definition) refers to, or None."""
+    if not is_place(op) or op["p"]["pr"]:
+        return None
+    ds = body.whole_defs(op["p"]["l"])
+    if len(ds) == 1 and ds[0][2] == "assign" and ds[0][3]["rv"]["k"] == "ref" and not ds[0][3]["rv"]["p"]["pr"]:
+        return ds[0][3]["rv"]["p"]["l"]
+    return None
 
 
 def _dispatch_arms(lib, d, ids):
@@ -884,3 +982,31 @@ def chunk_readers(facts):
         if len(near) >= 1:
             crs = near
     return crs
+
+
+def accessor_const(lib, body, op, depth=0):
+    """Integer value of an operand that is a constant, a copy of one, or the result of a same-crate one-argument
+    accessor (`CUTOFF.size_hint()`, `fn size_hint(self) -> usize { self.0 }`) applied to a constant whose decoded value
+    is that integer (a newtype around it); else None."""
+    from model import const_value as _cv
+
+    v = _cv(op)
+    if isinstance(v, int) and not isinstance(v, bool):
+        return v
+    if not is_place(op) or depth > 3:
+        return None
+    tr = trace(body, op)
+    if tr.origin and tr.origin[0] == "const" and all(s_[0] in ("use", "field") for s_ in tr.steps):
+        v = tr.origin[1].get("v")
+        return v if isinstance(v, int) and not isinstance(v, bool) else None
+    if tr.origin and tr.origin[0] == "call" and all(s_[0] == "use" for s_ in tr.steps):
+        ct = tr.origin[2]
+        f = fn_of(ct) or {}
+        cb = lib.by_id.get(f.get("resolved") or f.get("def")) if f.get("local") else None
+        if cb is not None and cb.nargs == 1 and len(ct["args"]) == 1:
+            rets = cb.whole_defs(0)
+            if len(rets) == 1 and rets[0][2] == "assign" and rets[0][3]["rv"]["k"] == "use" and is_place(rets[0][3]["rv"]["op"]):
+                rp = rets[0][3]["rv"]["op"]["p"]
+                if rp["l"] == 1 and all(e["k"] in ("field", "deref") for e in rp["pr"]) and len([e for e in rp["pr"] if e["k"] == "field"]) <= 1:
+                    return accessor_const(lib, body, ct["args"][0], depth + 1)
+    return None
